@@ -169,8 +169,12 @@ def compare_runs(spec, run0, run1, t0, fit, lin, vmap, cmap, fails, info, kind, 
             worst = (err, cls, f"junction {j}, interface {path[:3]}..{path[-1]} ({len(path)} points, {cls}): pair ({a[0]:.9g}, {a[1]:.9g}) "
                                f"should map to ({ea[0]:.9g}, {ea[1]:.9g}), found ({b[0]:.9g}, {b[1]:.9g}); |diff| {err:.3g} > {C_TOL[cls]:g}")
     if worst is not None:
-        emit(f"coefficient-pairs:{kind}:{worst[1]}:{fit}", worst[2])
+        if worst[1] == "flat" and worst[0] > 0.9:
+            emit(f"coefficient-pairs:flat-perpendicular:{fit}", worst[2] + f"  [{kind}]")     # fitted centre on the line in one presentation
+        else:
+            emit(f"coefficient-pairs:{kind}:{worst[1]}:{fit}", worst[2])
         return                                            # tensions / pressures would only repeat this
+    info["nontrivial"] = not excluded
     # ---- tensions and pressures: only where the optimum is unique and well conditioned
     x0 = np.array([float(run0.forces[i]) for i in range(len(run0.ibe))])
     if len(run0.cols) != len(run0.ibe) or not np.all(np.isfinite(x0)):
@@ -421,6 +425,11 @@ def _tissue_case_b04(spec):
         info["count"]["no_internal_interface"] += 1
         return dict(spec=spec, info=info, fails=fails)
     itfs = [tr.find(p) for p in run.ibe]
+    want = sorted(canon(i["path"]) for i in tr.internal)
+    if sorted(canon(p) for p in run.ibe) != want:
+        fails.append(_fail(spec, "rows-not-the-internal-interfaces", f"the pressure step works on {len(run.ibe)} interfaces "
+                                                                     f"(Frame.internal_big_edges), the tissue has {len(want)} internal interfaces"))
+        return dict(spec=spec, info=info, fails=fails)
     if any(i is None or i["tension"] is None for i in itfs):
         info["rejected"] = True
         return dict(spec=spec, info=info, fails=fails)
@@ -636,7 +645,7 @@ _fit_for = S.pick_fit
 
 def cases_b06(tier, seed):
     rng = np.random.default_rng(seed + 606)
-    n = 600 if tier == "quick" else 16000
+    n = 600 if tier == "quick" else 8000
     out = []
     for i in range(n):
         u = rng.random()
@@ -687,7 +696,7 @@ def small_tissues():
 
 def cases_b07(tier, seed):
     rng = np.random.default_rng(seed + 707)
-    n_rand, n_all = (600, 8) if tier == "quick" else (16000, 150)
+    n_rand, n_all = (600, 8) if tier == "quick" else (7000, 60)
     out = []
 
     def tissue(small=False):
@@ -734,7 +743,7 @@ def cases_b07(tier, seed):
 
 def cases_b04(tier, seed):
     rng = np.random.default_rng(seed + 404)
-    n_turn, n_tis, n_or = (400, 500, 400) if tier == "quick" else (6000, 14000, 10000)
+    n_turn, n_tis, n_or = (400, 500, 400) if tier == "quick" else (4000, 6000, 4500)
     out = []
     for n in range(3, 18):                                     # grid: every n, turning up to 1.5
         for th in (0.0, 1e-3, 0.05, 0.4, 1.0, 1.5):
@@ -794,9 +803,9 @@ def _run_case(spec):
          bound="straight and Moebius equilibrium tissues and noisy tissues (two-point interfaces with noise 0.02..0.25, arcs with "
                "noise 0.01..0.03 mesh-edge lengths), whole and sub-tissues of the hexagonal patch / flower / 25-40-site Voronoi; "
                "transformation kinds translate (0.1..1e4 tissue sizes, any direction), rotate (uniform or a tangent 0..2e-3 rad "
-               "from an axis), reflect (with/without rotation), scale (1e-3..1e3), mixed; quick 700 pairs, thorough 14000")
+               "from an axis), reflect (with/without rotation), scale (1e-3..1e3), mixed; quick 600 pairs, thorough 8000")
 def run_b06(tier, seed):
-    res, nr = S.run_all(cases_b06(tier, seed), _run_case, S._budget(tier))
+    res, nr = S.run_all(cases_b06(tier, seed), _run_case, S._budget(tier, 3))
     return S.aggregate(res, nr,
                        "case = (tissue, transformation): inference on both poses with the default back-end. Same internal interfaces, "
                        "unknowns and junctions; every coefficient pair maps with the linear part of the transformation within "
@@ -810,11 +819,11 @@ def run_b06(tier, seed):
 
 
 @bounded("B07", ["C07"], "independence of vertex / edge / cell ids, cycle start and cell orientation",
-         bound="every non-empty orientation pattern (2^cells - 1) of 5 (quick) / 60 (thorough) random sub-tissues with <= 6 cells; "
+         bound="every non-empty orientation pattern (2^cells - 1) of 8 (quick) / 60 (thorough) random sub-tissues with <= 6 cells; "
                "random tissues (straight, Moebius, noisy; hexagonal patch / flower / Voronoi, whole and subsets) with random "
-               "renumbering (with and without gaps), cycle shifts, random flips and their combinations; quick ~650, thorough ~11000")
+               "renumbering (with and without gaps), cycle shifts, random flips and their combinations; quick ~900, thorough ~9500")
 def run_b07(tier, seed):
-    res, nr = S.run_all(cases_b07(tier, seed), _run_case, S._budget(tier))
+    res, nr = S.run_all(cases_b07(tier, seed), _run_case, S._budget(tier, 3))
     return S.aggregate(res, nr,
                        "case = (tissue, shift / flip / renumber): inference on both presentations; ids of the second are mapped back. "
                        "Same internal interfaces (vertex paths), same unknowns and junctions, coefficient pairs equal within "
@@ -827,9 +836,9 @@ def run_b07(tier, seed):
                "turning 1e-3..1.5, radius 1e-2..1e3, position, sense, scale 1e-3..1e3); tissues: Moebius images (3..15 points, "
                "optionally resampled uniformly to 1..15 points) and straight tissues, whole / sub-tissues, random pose, random "
                "flipped cells, true tensions assigned by hand; orientation variants: flipped cells, reversed / permuted "
-               "construction order, shifted cycles; quick ~930 cases, thorough ~15000")
+               "construction order, shifted cycles; quick ~1390 cases, thorough ~14600")
 def run_b04(tier, seed):
-    res, nr = S.run_all(cases_b04(tier, seed), _run_case, S._budget(tier))
+    res, nr = S.run_all(cases_b04(tier, seed), _run_case, S._budget(tier, 3))
     return S.aggregate(res, nr,
                        "turning: |estimate| = theta (n-2)/(n-1) within 3 %, 0 (<= 1e-8) for straight, unchanged (1e-6) by scaling, "
                        "opposite for the reversed point order. tissue (true tensions / mean assigned to BigEdge.tension): every row has "
